@@ -49,6 +49,8 @@ func init() {
 				}
 				add("btree-s2-keyfamily1-k3", merge(base, p("ckeys", 1, "k", 3, "ops", opPut|opDelete, "index", 1, "shards", 2, "vlens", 1)))
 				add("hashmap-s1-empty-key-k3", merge(base, p("k", 3, "ops", opPut|opDelete, "index", 3, "shards", 1, "vlens", 2, "emptykey", 1)))
+				// every IndexType x ShardNum{1,3} x FileIOType x SyncStrategy combination as a choice point
+				add("cfgsweep-k2", merge(base, p("cfgsweep", 2, "k", 2, "ops", opPut|opDelete|opMerge, "vlens", 1, "dfs_lo", 40, "dfs_hi", 40)))
 				add("hashmap-s3-keyfamily2-k3", merge(base, p("ckeys", 2, "k", 3, "ops", opPut|opDelete, "index", 3, "shards", 3, "vlens", 1)))
 				add("btree-s3-sync-threshold-mmap-k2", merge(base, p("k", 2, "ops", opPut|opDelete, "index", 1, "shards", 3, "sync", 2, "io", 1, "vlens", 2)))
 			} else {
@@ -61,6 +63,7 @@ func init() {
 				}
 				add("hashmap-s2-pool3-k4", merge(base, p("k", 4, "pool", 3, "klen", 2, "ops", opPut|opDelete, "index", 3, "shards", 2)))
 				add("hashmap-s1-bigvals-k3", merge(base, p("k", 3, "vlens", 5, "vbig2", 50, "vbig3", 75, "ops", opPut|opDelete, "index", 3, "shards", 1)))
+				add("cfgsweep-k3", merge(base, p("cfgsweep", 1, "k", 3, "ops", opPut|opDelete|opBatch|opMerge|opSync, "bmax", 2, "vlens", 2, "dfs_lo", 60, "dfs_hi", 100)))
 			}
 			js = append(js, JobSpec{Name: "witness", Harness: "root", Func: "verifHarnessC01", Params: merge(base, p("k", 1, "ops", opPut, "index", 3, "shards", 1, "witness", 1)), Scale: scaleDF(32), Witness: true})
 			return js
@@ -93,6 +96,7 @@ func init() {
 				add("skiplist-k3-pre1-s2", merge(base, p("k", 3, "pre", 1, "index", 2, "shards", 2, "vlens", 1)))
 				add("skiplist-k2-pool3-s1", merge(base, p("k", 2, "pre", 2, "pool", 3, "index", 2, "shards", 1, "vlens", 1)))
 				add("btree-k2-mmap-s2", merge(base, p("k", 2, "pre", 1, "index", 1, "shards", 2, "io", 1)))
+				add("cfgsweep-k2-pre1", merge(base, p("cfgsweep", 2, "k", 2, "pre", 1, "vlens", 1, "dfs_lo", 40, "dfs_hi", 40)))
 			} else {
 				for idx := 1; idx <= 3; idx++ {
 					add(fmt.Sprintf("%s-k4-pre1", idxName[idx]), merge(base, p("k", 4, "pre", 1, "index", idx, "shards", 2)))
@@ -139,6 +143,7 @@ func init() {
 				add("merge-k3", merge(base, p("k", 3, "k2", 1, "ops", opPut|opDelete|opMerge, "vlens", 2, "index", 1, "shards", 1)))
 				// 12 data files (ids 0..11) before the history: file-name parsing, id ordering, two-digit ids
 				add("twelve-files-k2-k1", merge(base, p("fill", 12, "k", 2, "k2", 1, "ops", opPut|opDelete, "vlens", 1, "index", 3, "shards", 1, "dfs_lo", 20, "dfs_hi", 20)))
+				add("cfgsweep-k2", merge(base, p("cfgsweep", 2, "k", 2, "k2", 0, "ops", opPut|opDelete|opBatch, "bmax", 1, "vlens", 1, "r_index", 2, "r_shards", 2, "dfs_lo", 40, "dfs_hi", 40)))
 			} else {
 				add("end-offsets-std", merge(base, p("k", 1, "ops", opPut, "vlens", 4, "vbig2", -100, "index", 3, "shards", 1)))
 				add("end-offsets-mmap", merge(base, p("k", 1, "ops", opPut, "vlens", 4, "vbig2", -100, "index", 3, "shards", 1, "io", 1, "r_io", 1)))
@@ -151,6 +156,7 @@ func init() {
 				add("mmap-to-std-k3-k1", merge(base, p("k", 3, "k2", 1, "ops", opPut|opDelete|opBatch, "bmax", 1, "index", 3, "shards", 1, "io", 1, "r_io", 1)))
 				add("std-to-mmap-k3-k1", merge(base, p("k", 3, "k2", 1, "ops", opPut|opDelete|opBatch, "bmax", 1, "index", 3, "shards", 1, "io", 0, "r_io", 2)))
 				add("merge-k3-k2", merge(base, p("k", 3, "k2", 2, "ops", opPut|opDelete|opMerge|opBatch, "bmax", 1, "vlens", 2, "index", 1, "shards", 1, "dfs_lo", 60, "dfs_hi", 150)))
+				add("cfgsweep-k2-k1", merge(base, p("cfgsweep", 1, "k", 2, "k2", 1, "ops", opPut|opDelete|opBatch, "bmax", 1, "vlens", 1, "r_index", 2, "r_shards", 2, "dfs_lo", 40, "dfs_hi", 40)))
 			}
 			js = append(js, JobSpec{Name: "witness", Harness: "root", Func: "verifHarnessC02", Params: merge(base, p("k", 1, "k2", 1, "ops", opPut, "index", 3, "shards", 1, "witness", 1)), Scale: scaleDF(32), Witness: true})
 			return js
@@ -282,6 +288,7 @@ func init() {
 				}
 				add("hashmap-k3-s2", p("k", 3, "index", 3, "shards", 2, "nobatch", 1))
 				add("hashmap-k3-multichunk-values", p("k", 3, "index", 3, "shards", 1, "nobatch", 1, "bigv", 40))
+				add("cfgsweep-k2", p("cfgsweep", 2, "k", 2, "nobatch", 1))
 			} else {
 				for idx := 1; idx <= 3; idx++ {
 					add(fmt.Sprintf("%s-k3", idxName[idx]), p("k", 3, "index", idx, "shards", 2))
@@ -317,6 +324,7 @@ func init() {
 				add("merge-restart-k3-btree", merge(base, p("k", 3, "ops", opPut|opDelete|opMerge|opRestart, "index", 1, "dfs_lo", 60, "dfs_hi", 100, "vlens", 1)))
 				add("skiplist-s2-mmap-k2", merge(base, p("k", 2, "ops", opPut|opDelete|opRestart, "index", 2, "shards", 2, "io", 1, "dfs_lo", 60, "dfs_hi", 100)))
 				add("twelve-files-k2", merge(base, p("fill", 12, "k", 2, "ops", opPut|opDelete|opMerge|opRestart, "vlens", 1, "dfs_lo", 20, "dfs_hi", 20)))
+				add("cfgsweep-k2", merge(base, p("cfgsweep", 2, "k", 2, "ops", opPut|opDelete|opRestart, "vlens", 1, "dfs_lo", 40, "dfs_hi", 40)))
 			} else {
 				add("plain-k4", merge(base, p("k", 4, "ops", opPut|opDelete|opRestart, "vlens", 3, "vbig", 25, "dfs_lo", 40, "dfs_hi", 160)))
 				add("batch-k3", merge(base, p("k", 3, "ops", opPut|opDelete|opBatch|opRestart, "bmax", 2, "dfs_lo", 60, "dfs_hi", 160)))
@@ -355,6 +363,7 @@ func init() {
 				add("second-generation-k2", merge(base, p("premerge", 2, "k", 2, "ops", opPut|opDelete, "vlens", 1)))
 				add("skiplist-s2-k2", merge(base, p("k", 2, "ops", opPut|opDelete, "index", 2, "shards", 2, "post", 1)))
 				add("twelve-files-k1", merge(base, p("fill", 12, "k", 1, "ops", opPut|opDelete, "vlens", 1, "dfs_lo", 20, "dfs_hi", 20, "post", 1)))
+				add("cfgsweep-k2", merge(base, p("cfgsweep", 2, "k", 2, "ops", opPut|opDelete, "vlens", 1, "dfs_lo", 40, "dfs_hi", 40, "post", 1)))
 			} else {
 				add("plain-k4-post", merge(base, p("k", 4, "ops", opPut|opDelete, "post", 1)))
 				add("plain-k4-permute-big", merge(base, p("k", 4, "ops", opPut|opDelete, "vlens", 3, "vbig", 25, "permute", 1)))
@@ -409,6 +418,7 @@ func init() {
 				add("always-k3-rot", merge(base, p("k", 3, "ops", opPut|opDelete, "sync", syncAlways, "vlens", 3, "vbig", 25, "dfs_lo", 60, "dfs_hi", 120)))
 				add("threshold-k3", merge(base, p("k", 3, "ops", opPut|opDelete|opSync, "sync", syncThreshold)))
 				add("batch-k2", merge(base, p("k", 2, "ops", opPut|opDelete|opBatch, "vlens", 1, "bsync", 1, "dfs_lo", 120, "dfs_hi", 160)))
+				add("cfgsweep-k1", merge(base, p("cfgsweep", 2, "preput", 1, "k", 1, "ops", opPut|opDelete, "vlens", 1, "after", 1, "dfs_lo", 40, "dfs_hi", 40)))
 				add("btree-k3", merge(base, p("k", 3, "ops", opPut|opDelete|opSync, "index", 1, "shards", 2, "after", 1)))
 			}
 			js = append(js, JobSpec{Name: "witness", Harness: "root", Func: "verifHarnessCrash", Params: merge(base, p("k", 1, "ops", opPut, "witness", 1)), Scale: scaleDF(32), Witness: true})
@@ -457,6 +467,7 @@ func init() {
 				add("two-batches", merge(base, p("k", 2, "ops", opBatch, "bmax", 2, "after", 1, "afterbatch", 1)))
 				add("batch-put-merge-restart", merge(base, p("k", 2, "ops", opBatch|opPut, "bmax", 2, "tailops", opMerge|opRestart, "after", 1, "powerloss", 0, "crash2", 1)))
 				add("btree-overflow", merge(base, p("preput", 1, "k", 1, "ops", opBatch, "bmax", 3, "dfs_lo", 100, "dfs_hi", 200, "index", 1, "shards", 2)))
+				add("cfgsweep-bmax2", merge(base, p("cfgsweep", 2, "preput", 1, "k", 1, "ops", opBatch, "bmax", 2, "after", 1, "powerloss", 0, "dfs_lo", 40, "dfs_hi", 40)))
 			}
 			js = append(js, JobSpec{Name: "witness", Harness: "root", Func: "verifHarnessCrash", Params: merge(base, p("k", 1, "ops", opBatch, "bmax", 1, "witness", 1)), Scale: scaleDF(32), Witness: true, ConcCap: 300})
 			return js
@@ -496,6 +507,7 @@ func init() {
 				add("k2-crashed-merge-then-merge-crash2", merge(base, p("k", 2, "ops", opPut, "dfs_lo", 60, "dfs_hi", 100, "aftermerge", 1, "tailops", opMerge|opRestart)))
 				add("k3-permute-3files-crash2", merge(base, p("k", 3, "ops", opPut|opDelete, "dfs_lo", 60, "dfs_hi", 66, "permute", 1)))
 				add("second-generation-k2-crash2", merge(base, p("preput", 2, "premerge", 1, "k", 2, "ops", opPut|opDelete, "dfs_lo", 60, "dfs_hi", 100)))
+				add("cfgsweep-k1", merge(base, p("cfgsweep", 2, "preput", 1, "k", 1, "ops", opPut|opDelete, "dfs_lo", 40, "dfs_hi", 40, "crash2", 0)))
 			}
 			js = append(js, JobSpec{Name: "witness", Harness: "root", Func: "verifHarnessCrash", Params: merge(base, p("k", 1, "ops", opPut, "witness", 1, "crash2", 0)), Scale: scaleDF(32), Witness: true})
 			return js
@@ -617,6 +629,7 @@ func init() {
 				add("k2-batch-btree", merge(base, p("k", 2, "ops", opPut|opBatch, "bmax", 2, "vlens", 1, "index", 1)))
 				add("k2-mmap", merge(base, p("k", 2, "ops", opPut|opDelete, "io", 1)))
 			add("second-merge-generation", merge(base, p("premerge", 2, "k", 2, "ops", opPut|opDelete, "vlens", 1)))
+			add("cfgsweep-k2", merge(base, p("cfgsweep", 2, "k", 2, "ops", opPut|opDelete, "vlens", 1, "dfs_lo", 40, "dfs_hi", 40)))
 			} else {
 				add("k4", merge(base, p("k", 4, "ops", opPut|opDelete)))
 				add("k3-pool3", merge(base, p("k", 3, "pool", 3, "klen", 3, "ops", opPut|opDelete, "vlens", 3, "vbig", 25)))
@@ -697,6 +710,7 @@ func init() {
 			add("mmap-merge-restart-btree", merge(base, p("k", k+1, "ops", opPut|opMerge|opRestart, "io", 1, "index", 1)))
 			// the same directory is backed up into twice, with Delete / Merge / restart (adoption) in between
 			add("std-reuse-after-merge", merge(base, p("k", 2, "ops", opPut|opDelete, "io", 0, "reuse", 1, "k2", 3, "ops2", opDelete|opMerge|opRestart)))
+			add("cfgsweep-k2", merge(base, p("cfgsweep", 2, "k", 2, "ops", opPut|opDelete, "dfs_lo", 100, "dfs_hi", 100)))
 			if tier == "thorough" {
 				add("mmap-reuse-after-merge", merge(base, p("k", 2, "ops", opPut|opDelete, "io", 1, "reuse", 1, "k2", 3, "ops2", opPut|opDelete|opMerge|opRestart)))
 			}
